@@ -178,6 +178,37 @@ fn main() {
         }
         cases.push((format!("fragmented history, repeats {}", if local { "inside the pending xorb" } else { "of a stored xorb" }), f, if local { vec![] } else { vec![a] }));
     }
+    // 7. near-duplicate regions inside ONE pending xorb: a run R = A B C D E F G H stored as new data, later the same run with
+    //    one or two inner chunks replaced (A X C D .. / A B X D .. / A X Y D ..), at several offsets of the first occurrence in
+    //    the xorb; chunk lengths all different, so a run that swallows the replaced chunk also shows in the segment byte counts
+    for offset in [0usize, 3, 17] {
+        let mut f = fresh(offset, 40);
+        let r: Vec<Chunk> = (0..8).map(|k| fresh(1, 50 + 7 * k).pop().unwrap()).collect();
+        f.extend(r.iter().cloned());
+        let mut shapes = vec![];
+        for replaced in [vec![1usize], vec![2], vec![1, 2], vec![6], vec![3, 5], vec![1, 2, 3, 4, 5, 6]] {
+            f.extend(fresh(2, 33));
+            let mut v = r.clone();
+            for &k in &replaced {
+                v[k] = fresh(1, 90 + 11 * k).pop().unwrap();
+            }
+            f.extend(v);
+            shapes.push(format!("{replaced:?}"));
+        }
+        f.extend(fresh(1, 20));
+        cases.push((format!("run of 8 chunks stored at chunk {offset} of the pending xorb, then repeated with the chunks at run positions {} replaced by new ones (2 fresh chunks between the repeats)", shapes.join(", ")), f, vec![]));
+        // each shape alone, directly after the run
+        for replaced in [vec![1usize], vec![2], vec![1, 2]] {
+            let mut f = fresh(offset, 40);
+            f.extend(r.iter().cloned());
+            let mut v = r[..5].to_vec();
+            for &k in &replaced {
+                v[k] = fresh(1, 90 + 11 * k).pop().unwrap();
+            }
+            f.extend(v);
+            cases.push((format!("run A B C D E F G H at chunk {offset}, immediately followed by A..E with positions {replaced:?} replaced"), f, vec![]));
+        }
+    }
     for (name, file, remote) in &cases {
         for blocks in [vec![usize::MAX], vec![1usize], vec![7, 1000]] {
             let r = std::panic::catch_unwind(std::panic::AssertUnwindSafe(|| run(name, file, &blocks, remote))).unwrap_or_else(|e| {
